@@ -91,7 +91,7 @@ func (c *FnCtx) modTarget(l ast.Expr, ms *modSet) {
 		if s == SNone {
 			c.addHeapKeys(typeShortName(t), "", t, ms)
 		} else {
-			ms.heap["ptr."+sortName(s)] = true
+			ms.heap[c.ptrKey(t)] = true
 		}
 	}
 }
@@ -155,8 +155,8 @@ func (c *FnCtx) modCall(call *ast.CallExpr, ms *modSet) {
 			for k := range ef.W {
 				ms.heap[k] = true
 			}
-			if len(ef.W) > 0 {
-				ms.heapPtrAll = true
+			for _, ck := range c.contentKeys(ef) {
+				ms.heap[ck] = true
 			}
 		}
 	}
@@ -166,8 +166,8 @@ func (c *FnCtx) modCall(call *ast.CallExpr, ms *modSet) {
 				for k := range ef.W {
 					ms.heap[k] = true
 				}
-				if len(ef.W) > 0 {
-					ms.heapPtrAll = true
+				for _, ck := range c.contentKeys(ef) {
+					ms.heap[ck] = true
 				}
 				for g := range ef.G {
 					ms.ghost[g] = true
@@ -354,6 +354,7 @@ func (c *FnCtx) execLoop(st *State, node ast.Node, label string, bodyNode ast.No
 	mkHead := func(inferred []cand) *State {
 		h := st.clone()
 		c.havoc(h, ms, fmt.Sprintf("L%d", ord))
+		c.bumpAlloc(h)
 		for _, inv := range ls.Inv {
 			env := c.specEnvAt(h, pos)
 			h.assume(c.specBool(env, inv.Expr))
